@@ -33,6 +33,21 @@ class Impl:
         else:
             self.q = st.FrameQueueFrag()
         self.reused = st.RF24NetworkFrame()
+        self.handed = []     # (object dequeue() returned, its projection at that moment)
+        self.passed = []     # objects this caller passed to enqueue()
+
+    def alias(self):
+        """re-inspect every object ever handed out / passed in; returns "" or the first discrepancy"""
+        seen = {}
+        for k, (fr, was) in enumerate(self.handed):
+            if self.proj(fr) != was:
+                return "the frame dequeue #%d returned was altered by a later queue operation" % (k + 1)
+            if id(fr) in seen:
+                return "dequeue #%d and #%d returned one and the same object" % (seen[id(fr)] + 1, k + 1)
+            seen[id(fr)] = k
+            if any(fr is x for x in self.passed):
+                return "dequeue #%d returned the very object the caller had passed to enqueue()" % (k + 1)
+        return ""
 
     def queue(self):
         return self.node.queue if self.node is not None else self.q
@@ -55,6 +70,8 @@ class Impl:
         if how == "str":
             fr.header.message_type = chr(f["type"])      # "When set using a str ..." (documented for the attribute)
         fr.message = bytearray(f["body"])
+        if not any(fr is x for x in self.passed):
+            self.passed.append(fr)
         res = self.queue().enqueue(fr)
         if how == "mutate":  # the caller scribbles over the object it passed in
             fr.header.from_node ^= 0o5
@@ -71,6 +88,8 @@ class Impl:
     def enq_frag(self, f):
         """the message of frame f arrives as two fragments (one reused frame object, like the network layer's frame_buf)"""
         fr = self.reused
+        if not any(fr is x for x in self.passed):
+            self.passed.append(fr)
         out = []
         for typ, res, body in ((148, 2, f["body"][:1]), (150, f["type"], f["body"][1:])):
             fr.header.from_node, fr.header.to_node = f["from"], 0o1
@@ -80,7 +99,10 @@ class Impl:
         return out
 
     def deq(self):
-        return self.proj(self.queue().dequeue())
+        fr = self.queue().dequeue()
+        if fr is not None:
+            self.handed.append((fr, self.proj(fr)))
+        return self.proj(fr)
 
     def peek(self):
         return self.proj(self.queue().peek())
@@ -123,6 +145,7 @@ def apply_label(impl, name, args):
     else:
         raise KeyError(name)
     ev["len"], ev["max"] = impl.obs()
+    ev["alias"] = impl.alias()
     return ev
 
 
@@ -132,6 +155,8 @@ NOFRAME = {"from": -1, "id": -1, "type": -1, "body": []}
 def compare(ev, src, dst):
     """conformance of one observed step with the spec edge src -> dst; returns failed clause or None"""
     last = dst["last"]
+    if ev.get("alias"):
+        return "C12.Snapshot"
     if ev["op"] == "enqfrag" and not ev["first"]:
         return "C12.EnqueueResult"
     if ev["op"] in ("enq", "enqfrag"):
